@@ -284,7 +284,10 @@ def step (line : String) : String :=
     match fields op with
     | [_, tier, seed] =>
       let ss := schedules (tier = "thorough") (seed.toNat?.getD 1)
-      "\n".intercalate ((ss.map fun s => "S " ++ ",".intercalate (s.map labelTok)) ++ ["END"])
+      -- `FULL`: every interleaving of every scripted input was taken (no stride)
+      let full := scripts.all fun (ins, mayClose) =>
+        (enumerate genTable 80 {} ins mayClose [] 60000 []).length ≤ (if tier = "thorough" then 6000 else 300)
+      "\n".intercalate ((ss.map fun s => "S " ++ ",".intercalate (s.map labelTok)) ++ (if full then ["FULL"] else []) ++ ["END"])
     | _ => "END"
   else if op.startsWith "#" || op.startsWith "life " then "-\t-\t-" else   -- (`life`: an op of the other stream of C08, in a replay file)
   match fields op with
